@@ -40,7 +40,7 @@ def judge(case, part):
     part.validated += 1
     outcome, cid, detail = load(case["rows"])
     part.outcome(outcome)
-    what = case["what"].split("@")[0]
+    what = case["what"].split("@")[0].split(":")[0]
     if case["expect"] == "accept":
         if outcome != "accepted":
             part.fail("valid-cid|%s|%s" % (what, outcome), case, "accepted", detail)
@@ -83,6 +83,8 @@ def work(item):
                     if name_c == name_b:
                         judge({"rows": rows_c, "expect": "accept", "reference": rows, "what": name_a.split("@")[0] + "+" + name_b.split("@")[0], "fields": base["fields"]}, part)
                         break
+        for name, new_rows, fields in cidgrammar.extra_fields(base):
+            judge({"rows": new_rows, "expect": "accept", "what": name, "fields": fields}, part)
         for name, new_rows, row in cidgrammar.defects(base):
             judge({"rows": new_rows, "expect": "refuse", "row": row, "what": name}, part)
     part.sample({"base": bases[0]["rows"], "one rewrite": rewritten[3][0], "defects": [d[0] for d in itertools.islice(cidgrammar.defects(bases[0]), 5)]}, limit=1)
